@@ -167,6 +167,8 @@ class C10(Check):
                 op["lookups"] = lk[0]
             elif not lk and rng.random() < 0.5:
                 op["lookups"] = None
+            if isinstance(op["lookups"], list) and e > 0 and rng.random() < 0.35:
+                op["lk_kind"] = rng.choice(["tuple", "set", "frozenset", "gen", "iter", "keys", "deque"])
             if allow_coll is not None:
                 op["allow_coll"] = allow_coll
             elif rng.random() < 0.3:
@@ -248,7 +250,15 @@ class C10(Check):
                 rng.shuffle(look)
                 if roots and rng.random() < 0.3:
                     roots.append(dict(rng.choice(roots)))
-            ops.append({"op": "rf", "files": files, "roots": roots, "lookups": look, "key": rng.randrange(1 << 30) if e else None, "cwd": cwd})
+            op = {"op": "rf", "files": files, "roots": roots, "lookups": look, "key": rng.randrange(1 << 30) if e else None, "cwd": cwd}
+            if e > 0:
+                if rng.random() < 0.3:
+                    op["lk_kind"] = rng.choice(["tuple", "set", "frozenset", "gen", "iter", "keys", "deque"])
+                if rng.random() < 0.3:
+                    op["files_kind"] = rng.choice(["tuple", "set", "frozenset", "gen", "iter", "keys", "deque"])
+                if rng.random() < 0.3:
+                    op["roots_kind"] = rng.choice(["tuple", "gen", "iter", "keys", "deque"])
+            ops.append(op)
         return {"kind": "rf", "ops": ops}
 
     # ---- execution -----------------------------------------------------------------------------------------------
